@@ -13,6 +13,7 @@ import random
 import shutil
 
 import core
+import suitetrace
 
 GLOBSYM = ["a", ".", "/", "*", "\\"]
 PATHSYM = ["a", "z", ".", "/", "*", "\\", "\n"]
@@ -319,7 +320,12 @@ def run(ctx: core.Ctx) -> int:
                      "paths": ["".join(p) for p in e["paths"][:12]], "obs": e["obs"][:12]}
                     for e in (events[3], events[len(events) // 2], events[-1], *lint_events[:2])]
     n_eval = sum(len(e["paths"]) for e in events) + sum(len(e["paths"]) for e in lint_events)
-    rej = ctx.validate("Trace_C05", "Trace_C05.cfg", events + lint_events)
+    # every AnnotationsItem.matches() call the repository's own tests make, recorded and judged by the same two readings
+    suite_events = suitetrace.collect_api(ctx)
+    for i, e in enumerate(suite_events):
+        e["tid"] = 20_000_000 + i
+    n_eval += sum(len(e["paths"]) for e in suite_events)
+    rej = ctx.validate("Trace_C05", "Trace_C05.cfg", events + lint_events + suite_events)
     for r in rej:
         d = r.get("detail")
         if d:
@@ -331,7 +337,7 @@ def run(ctx: core.Ctx) -> int:
         rule="cases = every well-formed glob up to MaxLen (TLC-enumerated) + all pairs of globs of length <= 2 + seeded "
              "multi-glob annotations + seeded long globs; each case: product exploration over all paths (TLC) and "
              "direct matches()/lint answers on all paths up to length 2-3 plus seeded longer ones; non-trivial = glob "
-             "contains an asterisk or a backslash",
+             "contains an asterisk or a backslash; plus every matches() call made by the repository's own tests",
         mc_violations=mc_viol,
         extra={"exhaustive_bound": {"glob_MaxLen": maxlen}, "path_evaluations": n_eval})
 
